@@ -156,6 +156,25 @@ func genSpec(r *hxlib.Run, rng *rand.Rand, kind string) Spec {
 			}
 		}
 		s.YieldPm = rng.Intn(100)
+	case "smallcap": // tiny buffer: full-buffer, forced-emptying and wake-up races all the time
+		s.Cap = 1 + rng.Intn(8)
+		np = 2 + rng.Intn(8)
+		items = 20 + rng.Intn(r.Budget(300, 1500))
+		maxReps = 1 + rng.Intn(3)
+		if rng.Intn(2) == 0 {
+			s.Paced, s.TriggerUs = true, []int{0, 300, 3000}[rng.Intn(3)]
+		}
+		if rng.Intn(3) == 0 {
+			s.AdapterUs, s.AdapterEv = 10+rng.Intn(100), 1+rng.Intn(4)
+		}
+		if rng.Intn(2) == 0 {
+			s.YieldUs = 10 + rng.Intn(200)
+			for _, p := range []string{"p:enq", "p:enqB", "p:won", "w:token", "w:force", "w:empty", "w:timer", "p:full", "p:forced"} {
+				if rng.Intn(4) == 0 {
+					s.YieldAt = append(s.YieldAt, p)
+				}
+			}
+		}
 	case "many":
 		np = 16 + rng.Intn(17)
 		items = 10 + rng.Intn(r.Budget(60, 400))
@@ -327,8 +346,8 @@ func generate(r *hxlib.Run, emit func(hxlib.Case)) {
 	emit(hxlib.Case{Lines: []string{"w token token"}, Kind: "malformed"})
 	emit(hxlib.Case{Lines: []string{"w token unset slot W:1:3:1:0:0", "p 0 1 line enq won tokFull ret", "p 0 1 line enq won ret"}, Kind: "malformed"})
 	// (3) scenarios on the real logger, child process each
-	kinds := []string{"basic", "dups", "overflow", "burst", "paced", "paced-notrigger", "paced-flood", "levels", "mid", "tracer", "yield", "many"}
-	n := r.Budget(216, 1800)
+	kinds := []string{"basic", "dups", "overflow", "burst", "paced", "paced-notrigger", "paced-flood", "levels", "mid", "tracer", "yield", "many", "smallcap", "smallcap"}
+	n := r.Budget(252, 2100)
 	type job struct {
 		kind string
 		spec Spec
@@ -378,6 +397,7 @@ func generate(r *hxlib.Run, emit func(hxlib.Case)) {
 		for _, g := range jobs[i].spec.Glue {
 			r.Count("glue:" + g)
 		}
+		r.Count(fmt.Sprintf("buffer-cap:%d", st.meta["cap"]))
 		r.Count(fmt.Sprintf("producers:%s", bucket(len(jobs[i].spec.Prods), []int{1, 2, 4, 8, 16, 32})))
 		r.Count(fmt.Sprintf("lines-accepted:%s", bucket(st.meta["lines"], []int{0, 10, 100, 1024, 2048, 5000, 20000})))
 		r.Count(fmt.Sprintf("adapter-writes:%s", bucket(st.meta["writes"], []int{0, 10, 100, 1024, 5000, 20000})))
